@@ -36,7 +36,10 @@ var (
 	tryNames  = []string{"a", "a", "b", "A", "", "r", "nouser"}
 	// every connection of the check comes from 127.0.0.1, which the server also knows as localhost
 	hostPool = []string{"localhost", "127.0.0.1", "%", "127.0.0.%", "%.0.0.1", "local%", "127.%.1", // match
-		"10.%", "otherhost", "27.0.0.%", "ocalhos%", "127.0.0.2", "127.0.0.1%0"} // do not match
+		"10.%", "otherhost", "27.0.0.%", "ocalhos%", "127.0.0.2", "127.0.0.1%0", // do not match
+		// text after the last % that occurs inside the client host but not at its end, and text before the first %
+		// that occurs inside but not at its start (the pattern is anchored on both sides)
+		"127.%.0", "%.0.0", "%ocalhos", "%127.0.0", "l%calh", "0.%.1"}
 	pwPool = []string{"", "p", "pw", "Pw", "pw ", "pässwörd✓", `it's "q"`, `p\w`, strings.Repeat("x", 70), "0"}
 )
 
